@@ -826,7 +826,7 @@ impl Model {
             }
             Op::SetReporter => {}
             Op::PrepEvent { .. } => {}
-            Op::Unwind { steps } => {
+            Op::Unwind { steps, drops } => {
                 // flat layout: [begin marker] [steps] [end: everything left open is closed]
                 let floor = self.threads[t].frames.len();
                 for st in steps {
@@ -838,6 +838,9 @@ impl Model {
                     self.pop_frame();
                 }
                 self.unwinding = false;
+                for d in drops {
+                    self.finish_span(*d);
+                }
             }
             Op::ADrop { a } => {
                 let adm = self.adapters.get_mut(a).unwrap();
